@@ -82,9 +82,9 @@ XSH_POOL = [
     "q = pf'/tmp/{a}'\n",
     "r = pr'\\d'\n",
     "range?\n",
-    "a.b??\n",
+    "b??\n",
     "ok = ![ls] && ![pwd] || !(true)\n",
-    "for $I in $(seq 3):\n    echo = @(lambda: 1)\n",
+    "for $I in $(seq 3):\n    echo = $(echo @(I))\n",
     "$(echo @(x) @$(which ls) $HOME 'q s' `a.*`)\n",
     "files = `.*\\.py`\n",
     "g = g`*.txt`; r = @foo`bar`\n",
